@@ -252,11 +252,35 @@ def run_all(tier, seed, focus):
             samples.append({"program": [str(p) for p in prog], "config": cfg if focus != "C11" else icfg})
     rule = {
         "C03": "random programs (2..14 instructions, alphabet of bounded/progs: aligned loads/stores of all widths, branches, jumps, ecalls, faults) x random data-cache configurations (index bits 0..2, block bits 0..2, associativity 1..4, wb/wt, lru/plru, penalty) x both modes vs the uncached single-cycle run; non-trivial = run with both hits and misses; distinct by (configuration, mode, faulting?)",
-        "C09": "same scope; counters vs a reference tag-only cache fed the logged access sequence of the uncached run; both modes equal; accesses == executed loads/stores; single-cycle cycles == instructions + misses x penalty",
+        "C09": "same scope; counters vs a reference tag-only cache fed the logged access sequence of the uncached run; both modes equal; accesses == executed loads/stores; single-cycle cycles == instructions + misses x penalty; and after load_program of generated programs with data segments of every declaration kind the counters, the cycle counter and the cache are untouched",
         "C11": "same programs with random instruction-cache configurations; results unchanged; single-cycle fetch accounting vs the reference cache fed the executed addresses",
         "C12": "same scope; after EVERY step: write-through backing == logical contents; write-back backing differs only at resident addresses (views read off the blocks, no reads through the cache)",
         "C17": "same scope; the data-memory table equals the written words of the backing store in ascending order with the four representations of their current values",
     }[focus]
+    if focus == "C09":
+        # parser preloads leave the counters untouched: after load_program of a program with a data segment of every
+        # kind of declaration, a simulation with a data cache has made no counted access, charged no cycle, holds no
+        # block -- and the data is in the backing store
+        from bounded import asm
+        from architecture_simulator.simulation.riscv_simulation import RiscvSimulation
+        for it in range(150 if tier == "quick" else 5000):
+            cfg = rand_cfg(rnd)
+            ib, bb, assoc, kind, pol, pen = cfg
+            prog = asm.gen_program(rnd, 6, with_data=rnd.randint(1, 5))
+            text = asm.render(prog, rnd, plain=True)
+            mode = rnd.choice(["single_stage_pipeline", "five_stage_pipeline"])
+            sim = RiscvSimulation(mode=mode, data_cache=CacheOptions(True, ib, bb, assoc, kind, pol, max(pen, 1)))
+            try:
+                sim.load_program(text)
+            except Exception:
+                continue
+            evals += 1
+            ms = sim.state.memory
+            resident = sum(1 for cs in ms.cache.sets for bl in cs.blocks if bl.valid_bit)
+            if (ms.hits, ms.accesses, ms.last_was_hit, sim.state.performance_metrics.cycles, resident) != (0, 0, False, 0, 0):
+                if len(viol) < 5:
+                    viol.append({"key": "C09:preload:" + str(cfg), "what": "after load_program (no instruction executed): hits=%d accesses=%d last_was_hit=%s cycles=%d resident blocks=%d; the assembler's preload must leave all of them at 0 / False" % (
+                        ms.hits, ms.accesses, ms.last_was_hit, sim.state.performance_metrics.cycles, resident), "text": text, "config": list(cfg), "mode": mode, "sub": "preload"})
     ops_info = None
     if focus in ("C03", "C09", "C12"):
         from bounded import cacheops
@@ -271,6 +295,15 @@ def run_all(tier, seed, focus):
 
 
 def replay(j):
+    if j.get("sub") == "preload":
+        from architecture_simulator.simulation.riscv_simulation import RiscvSimulation
+        c = j["config"]
+        sim = RiscvSimulation(mode=j["mode"], data_cache=CacheOptions(True, c[0], c[1], c[2], c[3], c[4], max(c[5], 1)))
+        sim.load_program(j["text"])
+        ms = sim.state.memory
+        got = (ms.hits, ms.accesses, ms.last_was_hit, sim.state.performance_metrics.cycles)
+        print("after load_program: (hits, accesses, last_was_hit, cycles) =", got, "recorded:", j.get("what"))
+        return got == (0, 0, False, 0)
     if j.get("sub") == "cacheops":
         from bounded import cacheops
         return cacheops.replay(j)
